@@ -260,6 +260,102 @@ def step (cfg : Cfg) (s : State) (actions : List Int) (draws : List Int) : State
 /-- the observation `reset` builds from a generated state -/
 def resetObs (cfg : Cfg) (s : State) : Obs := ⟨makeObservations cfg s.world, s.mask, s.stepCount⟩
 
+/-! ### L1: the generator (`generator.py`, `utils_spawn.py`); the sampled values are a draw -/
+
+/-- positions of the two kinds of entity -/
+def apos (a : Agent) : Int × Int := (a.x, a.y)
+def spos (a : Shelf) : Int × Int := (a.x, a.y)
+
+/-- `place_entities_on_grid` for one channel: `grid.at[x, y].set(id + 1)` for the ids `k, k + 1, …` -/
+def placeFrom {α} (pos : α → Int × Int) : IGrid → List α → Nat → IGrid
+  | g, [], _ => g
+  | g, e :: es, k => placeFrom pos (Jx.Grid.setWD g (pos e).1 (pos e).2 ((k : Int) + 1)) es (k + 1)
+
+/-- `requested_ids = jnp.zeros(n).at[queue].set(1)` -/
+def requestedFlags (n : Nat) (queue : List Int) : List Int :=
+  queue.foldl (fun acc q => Jx.setWD acc q 1) (List.replicate n 0)
+
+/-- the state `RandomGenerator.__call__` builds from the sampled agent cells, directions and request queue -/
+def genState (R C : Nat) (agentCells : List (Int × Int)) (dirs : List Int) (shelfCells : List (Int × Int))
+    (queue : List Int) : State :=
+  let agents := List.zipWith (fun c d => (⟨c.1, c.2, d, false⟩ : Agent)) agentCells dirs
+  let shelves := List.zipWith (fun c r => (⟨c.1, c.2, r⟩ : Shelf)) shelfCells
+    (requestedFlags shelfCells.length queue)
+  let sg := placeFrom spos (Jx.Grid.mk R C 0) shelves 0
+  { shelfGrid := sg, agentGrid := placeFrom apos (Jx.Grid.mk R C 0) agents 0, agents := agents,
+    shelves := shelves, queue := queue, stepCount := 0, mask := computeMask sg agents }
+
+/-- what `spawn_random_entities` samples: `choice(arange(R * C), (num_agents,), replace=False)` (flat cell
+indices), `choice(_POSSIBLE_DIRECTIONS, (num_agents,))`, `choice(shelf_ids, (queue_size,), replace=False)` -/
+structure SpawnDraw where
+  agentFlat : List Int
+  dirs : List Int
+  queue : List Int
+  deriving Repr, DecidableEq
+
+/-- `jnp.unravel_index(k, (R, C))` -/
+def unravel (C : Nat) (k : Int) : Int × Int := (k / (C : Int), k % (C : Int))
+
+def cellsOf (rows cols : Nat) : List (Int × Int) :=
+  (List.range rows).flatMap (fun (r : Nat) => (List.range cols).map (fun (c : Nat) => ((r : Int), (c : Int))))
+
+/-- `_shelf_positions = jnp.argwhere(non_highways)`: the non-highway cells, row-major -/
+def shelfCells (hw : List (List Bool)) : List (Int × Int) :=
+  (cellsOf hw.length (hw.headD []).length).filter (fun c => !(Jx.Grid.getWC hw true c.1 c.2))
+
+/-- support of the draw: `num_agents` pairwise different cells of the floor (sampling WITHOUT replacement),
+one direction `0..3` per agent, `queue_size` pairwise different shelf ids -/
+def validSpawn (numAgents queueSize : Nat) (hw : List (List Bool)) (d : SpawnDraw) : Bool :=
+  decide (d.agentFlat.length = numAgents) && decide (d.dirs.length = numAgents) &&
+  decide (d.queue.length = queueSize) &&
+  d.agentFlat.all (fun k => decide (0 ≤ k) && decide (k < ((hw.length * (hw.headD []).length : Nat) : Int))) &&
+  decide d.agentFlat.Nodup &&
+  d.dirs.all (fun k => decide (0 ≤ k) && decide (k < 4)) &&
+  d.queue.all (fun q => decide (0 ≤ q) && decide (q < ((shelfCells hw).length : Int))) &&
+  decide d.queue.Nodup
+
+/-- `RandomGenerator.__call__` with the sampled values `d` (the floor has the shape of `highways`) -/
+def generate (cfg : Cfg) (d : SpawnDraw) : State :=
+  genState cfg.highways.length (cfg.highways.headD []).length
+    (d.agentFlat.map (unravel (cfg.highways.headD []).length)) d.dirs (shelfCells cfg.highways) d.queue
+
+/-- `GeneratorBase._make_warehouse`: the floor layout from the generator's arguments -/
+structure Layout where
+  shelfRows : Nat
+  shelfColumns : Nat
+  columnHeight : Nat
+  deriving Repr, DecidableEq
+
+def Layout.rows (l : Layout) : Nat := (l.columnHeight + 1) * l.shelfRows + 2
+def Layout.cols (l : Layout) : Nat := (2 + 1) * l.shelfColumns + 1
+
+/-- `highway_func(x, y)` -/
+def Layout.isHighway (l : Layout) (x y : Nat) : Bool :=
+  decide (y % 3 = 0) || decide (x % (l.columnHeight + 1) = 0) || decide ((x : Int) = (l.rows : Int) - 1) ||
+  (decide ((x : Int) > (l.rows : Int) - ((l.columnHeight : Int) + 3)) &&
+    (decide ((y : Int) = ((l.cols / 2 : Nat) : Int) - 1) || decide (y = l.cols / 2)))
+
+def Layout.highways (l : Layout) : List (List Bool) :=
+  (List.range l.rows).map (fun x => (List.range l.cols).map (fun y => l.isHighway x y))
+
+/-- `_goals`, as `(y, x)` pairs -/
+def Layout.goals (l : Layout) : List (Int × Int) :=
+  [(((l.cols / 2 : Nat) : Int) - 1, (l.rows : Int) - 1), (((l.cols / 2 : Nat) : Int), (l.rows : Int) - 1)]
+
+/-! ### whole plays: iterating `step` -/
+
+/-- the (successor state, timestep) pairs of playing the (joint action, draw) pairs `ps` from `s`; the model
+`step` is total, so the list goes on past a LAST timestep -/
+def run (cfg : Cfg) : State → List (List Int × List Int) → List (State × TimeStep Obs)
+  | _, [] => []
+  | s, p :: ps => step cfg s p.1 p.2 :: run cfg (step cfg s p.1 p.2).1 ps
+
+/-- the state in which step number `k + 1` of the play is taken -/
+def stateAt (cfg : Cfg) : State → List (List Int × List Int) → Nat → State
+  | s, _, 0 => s
+  | s, [], _ + 1 => s
+  | s, p :: ps, k + 1 => stateAt cfg (step cfg s p.1 p.2).1 ps k
+
 /-! ## L2: the rules, from the entity tables -/
 
 def inGrid (rows cols : Nat) (x y : Int) : Prop := 0 ≤ x ∧ x < rows ∧ 0 ≤ y ∧ y < cols
